@@ -429,6 +429,27 @@ func vfC01Configs(thorough bool) []*vfNetCfg {
 		g4 := [][][2]int{{{0, 1}, {1, 2}, {2, 3}}, {{0, 1}, {0, 2}, {0, 3}}, {{0, 1}, {1, 2}, {2, 3}, {3, 0}}, {{0, 1}, {1, 2}, {2, 0}, {2, 3}}, {{0, 1}, {1, 2}, {2, 3}, {3, 0}, {0, 2}}, {{0, 1}, {0, 2}, {0, 3}, {1, 2}, {1, 3}, {2, 3}}}
 		add(4, g4, [][]string{{"gossip", "gossip", "gossip", "gossip"}, {"gossip", "flood", "gossip", "random"}}, [][]string{{"sub", "relay", "sub", "pub"}, {"pub", "sub", "relay", "sub"}, {"sub", "sub", "sub", "sub"}, {"relay", "sub", "pub", "sub"}}, []string{""})
 	}
+	// gossip-only links: a hub of degree Dhi cuts its mesh back to D, so one neighbour is reached by IHAVE/IWANT
+	// only (and does not re-graft: its own mesh is at Dlo through the node behind it).  Every neighbour of the hub
+	// is a relay (or a subscriber, as the control) with one subscriber behind it.
+	g7 := [][2]int{{0, 1}, {0, 2}, {0, 3}, {1, 4}, {2, 5}, {3, 6}}
+	all := func(r string) []string { return []string{r, r, r, r, r, r, r} }
+	for _, ro := range [][]string{
+		{"sub", "relay", "relay", "relay", "sub", "sub", "sub"},
+		{"pub", "relay", "relay", "relay", "sub", "sub", "sub"},
+		{"sub", "sub", "relay", "sub", "sub", "sub", "sub2"},
+		{"relay", "relay", "relay", "relay", "sub", "sub", "sub"},
+		all("sub"),
+	} {
+		for _, rv := range [][]string{all("gossip"), {"gossip", "gossip", "gossip", "gossip", "flood", "gossip", "random"}} {
+			for _, pub := range []int{0, 4, 6} {
+				if ro[pub] == "relay" {
+					continue
+				}
+				out = append(out, &vfNetCfg{N: 7, Edges: g7, Routers: rv, Roles: ro, Pub: pub})
+			}
+		}
+	}
 	return out
 }
 
